@@ -53,6 +53,10 @@ func NewServer(parse ParseFn, options ...OptionFn) (*Server, error) {
 
 // Server contains options for listening to an address.
 type Server struct {
+	// mu guards the closing state against the admission of new commands: a
+	// command is either registered inside the wait group before the server
+	// starts closing or it is never started.
+	mu              sync.Mutex
 	closing         atomic.Bool
 	wg              sync.WaitGroup
 	logger          *slog.Logger
@@ -89,7 +93,18 @@ func (srv *Server) Serve(listener net.Listener) error {
 	defer srv.logger.Info("closing server")
 
 	srv.logger.Info("serving incoming connections", slog.String("addr", listener.Addr().String()))
-	srv.wg.Add(1)
+
+	srv.mu.Lock()
+	closing := srv.closing.Load()
+	if !closing {
+		srv.wg.Add(1)
+	}
+	srv.mu.Unlock()
+
+	// NOTE: the server has been closed before it started serving
+	if closing {
+		return listener.Close()
+	}
 
 	// NOTE: handle graceful shutdowns
 	go func() {
@@ -174,12 +189,16 @@ func (srv *Server) serve(ctx context.Context, conn net.Conn) error {
 
 // Close gracefully closes the underlaying Postgres server.
 func (srv *Server) Close() error {
-	if srv.closing.Load() {
-		return nil
+	srv.mu.Lock()
+	first := srv.closing.CompareAndSwap(false, true)
+	srv.mu.Unlock()
+
+	// NOTE: only the first call is allowed to close the closer channel, every
+	// call waits until the commands which have been started are finished.
+	if first {
+		close(srv.closer)
 	}
 
-	srv.closing.Store(true)
-	close(srv.closer)
 	srv.wg.Wait()
 	return nil
 }
